@@ -213,6 +213,9 @@ func (e *Engine) equal(st *State, a, b Value) *Term {
 		if len(x.B) != len(y.B) {
 			return False
 		}
+		if len(x.B) >= 2 {
+			return wideEq(x.B, y.B)
+		}
 		r := True
 		for i := range x.B {
 			r = And(r, Eq(x.B[i], y.B[i]))
@@ -234,6 +237,13 @@ func (e *Engine) equal(st *State, a, b Value) *Term {
 		return True
 	case *ArrayV:
 		y := b.(*ArrayV)
+		if len(x.E) >= 2 {
+			if xs, ok := byteTerms(x.E); ok {
+				if ys, ok := byteTerms(y.E); ok {
+					return wideEq(xs, ys)
+				}
+			}
+		}
 		r := True
 		for i := range x.E {
 			c := e.equal(st, x.E[i], y.E[i])
@@ -595,4 +605,35 @@ func decodeRune(s string) (rune, int) {
 		return r, n
 	}
 	return 0, 1
+}
+
+func byteTerms(vs []Value) ([]*Term, bool) {
+	out := make([]*Term, len(vs))
+	for i, v := range vs {
+		t, ok := v.(*Term)
+		if !ok || t.sort.K != SBV || t.sort.W != 8 {
+			return nil, false
+		}
+		out[i] = t
+	}
+	return out, true
+}
+
+// wideEq compares two byte sequences of equal length as one bit-vector equality; adjacent extracts of the same term
+// fold back into the term (Concat), so comparing e.g. a 20-byte address atom with 20 extracted hash bytes becomes a
+// single equation that the path condition often contains verbatim.
+func wideEq(a, b []*Term) *Term {
+	// long sequences: compare in 64-byte chunks to keep terms shallow
+	if len(a) > 64 {
+		r := True
+		for i := 0; i < len(a); i += 64 {
+			j := min(i+64, len(a))
+			r = And(r, wideEq(a[i:j], b[i:j]))
+			if r.IsFalse() {
+				return r
+			}
+		}
+		return r
+	}
+	return Eq(termOfBytes(a), termOfBytes(b))
 }
